@@ -896,12 +896,18 @@ def pkc_case(ctx, r, model, replies=None):
             return
     if base["err"] and base["err"].startswith("AttributeError: 'NoneType'"):
         ctx.count("observed_outside_property_pkone_unexpected_board_reply_AttributeError")
+    # a reply with a byte that is not UTF-8 ends the connect phase inside _read_with_timeout (msg_raw.decode()) before the
+    # reply is handed on: start-up stops, as it does for any other garbled reply; that read is not in `reads`, so none of the
+    # logged replies is the one the phase ended on
+    undecodable = bool(base["err"]) and base["err"].startswith("UnicodeDecodeError")
+    if undecodable:
+        ctx.count("observed_outside_property_pkone_connect_reply_not_utf8_UnicodeDecodeError")
     if model is not None:
         # every reply the connect phase took, in order: PCN replies, then one per PCB query
         reads = list(base["reads"])
         asked = [a for a in base["asked"] if a.startswith(("PCN", "PCB"))]
         for i, (a, msg) in enumerate(zip(asked, reads)):
-            is_last = i == len(reads) - 1
+            is_last = i == len(reads) - 1 and not undecodable
             if a.startswith("PCN"):
                 ans = model.ask("pkcn " + (msg.encode("latin-1").hex() or "-"))
             else:
